@@ -240,7 +240,7 @@ pub fn run_c32(batch: &str, tape: &mut Tape, rep: &mut Report) {
     let sequential = batch.starts_with("sequential");
     // "core" batches use deploy / teardown / migrate / rebalance / heartbeat / tick only; the others add
     // membership changes (register an existing worker again, deregister, drain)
-    let membership = !batch.ends_with("-core");
+    let membership = !batch.ends_with("-core") && batch != "sequential-failover";
     let nworkers = tape.range(2, 3);
     let nreq = tape.range(4, 14);
     let wcfg = if batch == "interleaved-all" {
@@ -265,13 +265,20 @@ pub fn run_c32(batch: &str, tape: &mut Tape, rep: &mut Report) {
         Deregister(u64),
         Heartbeat(u64),
         Tick,
+        /// the worker process dies (loses its pipelines, stops heartbeating, refuses calls) / comes back empty and
+        /// resumes heartbeating without registering again
+        WorkerDies(u64),
+        WorkerBack(u64),
     }
+    let failover = batch == "sequential-failover";
     let mut plan: Vec<(u64, Rq)> = vec![];
     let mut t = 0u64;
     for _ in 0..nreq {
         t += if sequential { 60_000 } else { *tape.pick(&[0u64, 0, 5, 50, 500, 5000]) };
         let w = tape.range(1, nworkers);
-        let r = match tape.draw(if membership { 12 } else { 9 }) {
+        let r = match if failover { [0u64, 1, 2, 3, 4, 4, 6, 7, 8, 12, 12, 12][tape.draw(12) as usize] } else { tape.draw(if membership { 12 } else { 9 }) } {
+            12 => Rq::WorkerDies(w),
+            13 => Rq::WorkerBack(w),
             0..=2 => Rq::Deploy(tape.draw(2)),
             3 => Rq::Teardown(tape.draw(2)),
             4 | 5 => Rq::Migrate(tape.draw(2), w),
@@ -360,11 +367,23 @@ pub fn run_c32(batch: &str, tape: &mut Tape, rep: &mut Report) {
                     }
                     Rq::Deregister(w) => api(&routes, "DELETE", &format!("/api/v1/cluster/workers/w{}", w), None).await.status,
                     Rq::Heartbeat(_) if no_heartbeats => 0,
+                    Rq::Heartbeat(w) if !net.lock().unwrap().workers.get(&whost(*w)).map(|x| x.up).unwrap_or(false) => 0, // a dead worker sends nothing
                     Rq::Heartbeat(w) => {
                         let n = net.lock().unwrap().workers.get(&whost(*w)).map(|x| x.pipelines.len()).unwrap_or(0);
                         api(&routes, "POST", &format!("/api/v1/cluster/workers/w{}/heartbeat", w), Some(json!({"events_processed": 0, "pipelines_running": n}))).await.status
                     }
                     Rq::Tick => { health_tick(&coord).await; 200 }
+                    Rq::WorkerDies(w) => {
+                        let mut g = net.lock().unwrap();
+                        if let Some(x) = g.workers.get_mut(&whost(*w)) { x.up = false; x.pipelines.clear(); }
+                        g.fault("worker-died");
+                        200
+                    }
+                    Rq::WorkerBack(w) => {
+                        let mut g = net.lock().unwrap();
+                        if let Some(x) = g.workers.get_mut(&whost(*w)) { if !x.up { x.up = true; g.fault("worker-back"); } }
+                        200
+                    }
                 };
                 net.lock().unwrap().events.push(format!("request #{} {:?} -> {}", i, rq, out));
                 {
@@ -397,9 +416,22 @@ pub fn run_c32(batch: &str, tape: &mut Tape, rep: &mut Report) {
                 }
             })
         };
+        // sequential-failover: the health loop runs on its own every 5 s (offset by 2.5 s so that an iteration never
+        // coincides with a request), as in a running coordinator; a worker that died is noticed and failed over
+        let loop_task = if failover {
+            let (coord, hb_stop) = (coord.clone(), hb_stop.clone());
+            Some(tokio::spawn(async move {
+                tokio::time::sleep(Duration::from_millis(2500)).await;
+                while !hb_stop.load(std::sync::atomic::Ordering::SeqCst) {
+                    health_tick(&coord).await;
+                    tokio::time::sleep(Duration::from_secs(5)).await;
+                }
+            }))
+        } else { None };
         for t in tasks {
             let _ = t.await;
         }
+        if let Some(t) = loop_task { tokio::time::sleep(Duration::from_secs(40)).await; t.abort(); }
         // quiescent: no request is between plan and commit. The health loop then runs twice (5 s apart) before the
         // bookkeeping is judged, so that states the loop is designed to repair (a re-registered worker whose
         // pipelines are re-deployed by reconcile_placements) are not reported.
